@@ -76,33 +76,32 @@ structure ObsEq (p q : Parser) : Prop where
   err : p.err = q.err
   cur : p.cur = q.cur
   fault : p.fault = q.fault
-  ncb : p.ncb = q.ncb
   oof : p.oof = q.oof
   lsize : p.levels.size = q.levels.size
   levels : p.err = .none → p.levels = q.levels
 
-theorem ObsEq.refl (p : Parser) : ObsEq p p := ⟨rfl, rfl, rfl, rfl, rfl, rfl, rfl, rfl, rfl, rfl, rfl, rfl, fun _ => rfl⟩
+theorem ObsEq.refl (p : Parser) : ObsEq p p := ⟨rfl, rfl, rfl, rfl, rfl, rfl, rfl, rfl, rfl, rfl, rfl, fun _ => rfl⟩
 
 theorem ObsEq.eq_of_noerr {p q : Parser} (e : ObsEq p q) (he : p.err = .none) : p = q := by
-  obtain ⟨a1, a2, a3, a4, a5, a6, a7, a8, a9, a10, a11, _, a13⟩ := e
+  obtain ⟨a1, a2, a3, a4, a5, a6, a7, a8, a9, a11, _, a13⟩ := e
   have := a13 he
   cases p; cases q; simp_all
 
 /-- `reset` reads no state entry: observationally equal objects stay so, with the same answer -/
 theorem reset_obsEq (p q : Parser) (e : ObsEq p q) : (reset p).2 = (reset q).2 ∧ ObsEq (reset p).1 (reset q).1 := by
-  obtain ⟨a1, a2, a3, a4, a5, a6, a7, a8, a9, a10, a11, a12, a13⟩ := e
+  obtain ⟨a1, a2, a3, a4, a5, a6, a7, a8, a9, a11, a12, a13⟩ := e
   cases p with
-  | mk pt pd pm ps pu pb pe pl pc pf pn po =>
+  | mk pt pd pm ps pu pb pe pl pc pf po =>
   cases q with
-  | mk qt qd qm qs qu qb qe ql qc qf qn qo =>
-  simp only at a1 a2 a3 a4 a5 a6 a7 a8 a9 a10 a11 a12 a13
-  subst a1 a2 a3 a4 a5 a6 a7 a8 a9 a10 a11
+  | mk qt qd qm qs qu qb qe ql qc qf qo =>
+  simp only at a1 a2 a3 a4 a5 a6 a7 a8 a9 a11 a12 a13
+  subst a1 a2 a3 a4 a5 a6 a7 a8 a9 a11
   unfold reset
   simp only [Parser.touchBuf, Parser.byte, wipe]
   repeat' split
   all_goals first
-    | exact ⟨rfl, ⟨rfl, rfl, rfl, rfl, rfl, rfl, rfl, rfl, rfl, rfl, rfl, a12, a13⟩⟩
-    | exact ⟨rfl, ⟨rfl, rfl, rfl, rfl, rfl, rfl, rfl, rfl, rfl, rfl, rfl, a12, fun h => by cases h⟩⟩
-    | exact ⟨rfl, ⟨rfl, rfl, rfl, rfl, rfl, rfl, rfl, rfl, by simp [a12], rfl, rfl, by simp [a12], fun _ => by simp [a12]⟩⟩
+    | exact ⟨rfl, ⟨rfl, rfl, rfl, rfl, rfl, rfl, rfl, rfl, rfl, rfl, a12, a13⟩⟩
+    | exact ⟨rfl, ⟨rfl, rfl, rfl, rfl, rfl, rfl, rfl, rfl, rfl, rfl, a12, fun h => by cases h⟩⟩
+    | exact ⟨rfl, ⟨rfl, rfl, rfl, rfl, rfl, rfl, rfl, rfl, by simp [a12], rfl, by simp [a12], fun _ => by simp [a12]⟩⟩
 
 end Binson
